@@ -76,7 +76,8 @@ pub fn corruptions(format: &str) -> Vec<Corruption> {
             push("number with leading zero", b"07");
             // counts (header fields except M and O) and literals are all limited by small numbers here
             let is_m = t.line == 1 && i == 1;
-            let is_o = t.line == 1 && i == 4;
+            // O, B, C, J, F count literals, not variables: any number is a legal count there
+            let is_o = t.line == 1 && (i == 4 || i >= 6);
             // a justice property size is a count that is not limited by the header (99 is legal there)
             let justice_size_line = if format == "aag" { 8 } else { 7 };
             let is_justice_size = base.starts_with(b"aag 4") || base.starts_with(b"aig 4");
